@@ -3,6 +3,9 @@
 # Each property is built separately so that one broken module cannot take the others down; every check
 # rebuilds (no-op when fresh) and audits its own targets again when it runs.
 cd "$(dirname "$0")" || exit 2
+# one parallel build of everything first (all cores); a failure here is not fatal: the per-property builds below
+# isolate a broken module and report it.
+./lk build >/dev/null 2>&1 || echo "setup: whole-project build reported errors; building per property"
 /venv/bin/python - <<'PY'
 import json, subprocess, sys, importlib, os
 sys.path.insert(0, "harness")
